@@ -448,6 +448,95 @@ theorem edgeEdgeClip3_aligned (pos12 : Iso3 K) (hq : UnitQ pos12) (e1a e1b e2a e
       ((pos12.act c.p2).sub c.p1).dot (e1b.sub e1a) = 0 :=
   fun c hc => (edgeEdgeClip3_good sq pos12 hq e1a e1b e2a e2b sep c hc).2
 
+/-! ## `contact_manifold_pfm_pfm` after the GJK call (edge features) -/
+
+/-- `p` is within `br` of a point of `S` (membership in the shape rounded by its border radius) -/
+def NearSet (S : V3 K → Prop) (br : K) (p : V3 K) : Prop :=
+  letI := fieldNum K sq
+  ∃ q, S q ∧ (p.sub q).normSq ≤ br * br
+
+private theorem applyBorder3_good (pos12 : Iso3 K) (hq : UnitQ pos12) (n1 : V3 K) (br1 br2 : K)
+    (hn : letI := fieldNum K sq; n1.dot n1 = 1) (S1 S2 : V3 K → Prop) (c : Contact3 K)
+    (hd : letI := fieldNum K sq; c.dist = ((pos12.act c.p2).sub c.p1).dot n1) (h1 : S1 c.p1) (h2 : S2 c.p2) :
+    letI := fieldNum K sq
+    let c' := applyBorder3 n1 (pos12.invRot n1.neg) br1 br2 c
+    c'.dist = ((pos12.act c'.p2).sub c'.p1).dot n1 ∧ NearSet sq S1 br1 c'.p1 ∧ NearSet sq S2 br2 c'.p2 := by
+  intro c'
+  obtain ⟨b1, b2, _, _, _, _⟩ := ball_contact3 sq pos12 hq n1 br1 br2 hn
+  have e1 : @Iso3.act K (fieldNum K sq) pos12 (@V3.add K (fieldNum K sq) c.p2
+        (@V3.smul K (fieldNum K sq) (@Iso3.invRot K (fieldNum K sq) pos12 (@V3.neg K (fieldNum K sq) n1)) br2))
+      = @V3.sub K (fieldNum K sq) (@Iso3.act K (fieldNum K sq) pos12 c.p2) (@V3.smul K (fieldNum K sq) n1 br2) := by
+    simp only [Iso3.act]
+    rw [rot_add3, rot_smul3, b2]
+    apply V3.ext' <;> simp only [V3.add, V3.sub, V3.smul, V3.neg] <;> ring
+  refine ⟨?_, ⟨c.p1, h1, ?_⟩, ⟨c.p2, h2, ?_⟩⟩
+  · simp only [c', applyBorder3]
+    rw [e1, hd]
+    simp only [V3.dot, V3.add, V3.sub, V3.smul] at hn ⊢
+    linear_combination (br1 + br2) * hn
+  · simp only [c', applyBorder3, V3.normSq, V3.dot, V3.add, V3.sub, V3.smul] at hn ⊢
+    apply le_of_eq; linear_combination (br1 * br1) * hn
+  · simp only [c', applyBorder3, V3.normSq, V3.dot, V3.add, V3.sub, V3.smul] at b1 ⊢
+    apply le_of_eq; linear_combination (br2 * br2) * b1
+
+/-- **C14, `contact_manifold_pfm_pfm` given the GJK answer, edge features.**  If GJK returned a UNIT direction `dir` and a
+witness pair `p1 ∈ S1`, `p2_1` with `pos12⁻¹ p2_1 ∈ S2`, and the two support edges lie in the core shapes `S1`, `S2`, then the
+finished manifold has unit exactly-opposite normals (`n1 = dir`, `pos12·n2 = −n1`), at most three contacts, and EVERY contact —
+the clipped / closest-point feature contacts and the extra GJK contact, after the border-radius shift — satisfies
+`dist = (pos12·local_p2 − local_p1)·n1` with `local_p1` within `border_radius1` of `S1` and `local_p2` within
+`border_radius2` of `S2`.  For every basis function and `ulps` predicate. -/
+theorem pfmPfmEdgeGiven_spec (basis : V3 K → V3 K × V3 K) (ulps : K → K → Bool) (pos12 : Iso3 K) (hq : UnitQ pos12)
+    (p1 p21 dir e1a e1b e2a e2b : V3 K) (br1 br2 : K) (S1 S2 : V3 K → Prop)
+    (hn : letI := fieldNum K sq; dir.dot dir = 1)
+    (hp1 : S1 p1) (hp2 : letI := fieldNum K sq; S2 (pos12.invAct p21))
+    (he1 : letI := fieldNum K sq; ∀ p, (Segment3.mk e1a e1b).Mem p → S1 p)
+    (he2 : letI := fieldNum K sq; ∀ p, (Segment3.mk e2a e2b).Mem p → S2 p) :
+    letI := fieldNum K sq
+    let m := pfmPfmEdgeGiven basis ulps pos12 p1 p21 dir e1a e1b e2a e2b br1 br2
+    m.n1 = dir ∧ m.n2.dot m.n2 = 1 ∧ pos12.rot m.n2 = m.n1.neg ∧ m.points.length ≤ 3 ∧
+    ∀ c ∈ m.points, c.dist = ((pos12.act c.p2).sub c.p1).dot m.n1 ∧ NearSet sq S1 br1 c.p1 ∧ NearSet sq S2 br2 c.p2 := by
+  intro m
+  obtain ⟨b1, b2, _, _, _, _⟩ := ball_contact3 sq pos12 hq dir br1 br2 hn
+  obtain ⟨hlen, hgood⟩ := edgeEdge3_spec sq basis ulps pos12 hq e1a e1b e2a e2b dir
+  -- the raw contacts: good with witnesses IN the core shapes
+  have hraw : ∀ c ∈ (@edgeEdge3 K (fieldNum K sq) basis ulps pos12 e1a e1b e2a e2b dir false) ++
+      [(⟨p1, @Iso3.invAct K (fieldNum K sq) pos12 p21,
+        @V3.dot K (fieldNum K sq) (@V3.sub K (fieldNum K sq) p21 p1) dir⟩ : Contact3 K)],
+      c.dist = @V3.dot K (fieldNum K sq) (@V3.sub K (fieldNum K sq) (@Iso3.act K (fieldNum K sq) pos12 c.p2) c.p1) dir
+        ∧ S1 c.p1 ∧ S2 c.p2 := by
+    intro c hc
+    rcases List.mem_append.mp hc with h | h
+    · obtain ⟨g1, g2, g3⟩ := hgood c h
+      exact ⟨g3, he1 _ g1, he2 _ g2⟩
+    · simp only [List.mem_singleton] at h
+      subst h
+      refine ⟨?_, hp1, hp2⟩
+      simp only []; rw [act_invAct3 sq pos12 hq]
+  have hrawlen : ((@edgeEdge3 K (fieldNum K sq) basis ulps pos12 e1a e1b e2a e2b dir false) ++
+      [(⟨p1, @Iso3.invAct K (fieldNum K sq) pos12 p21,
+        @V3.dot K (fieldNum K sq) (@V3.sub K (fieldNum K sq) p21 p1) dir⟩ : Contact3 K)]).length ≤ 3 := by
+    simp only [List.length_append, List.length_singleton]; omega
+  simp only [m, pfmPfmEdgeGiven]
+  refine ⟨trivial, b1, b2, ?_, ?_⟩
+  · split_ifs
+    · exact hrawlen
+    · rw [List.length_map]; exact hrawlen
+  · split_ifs with hz
+    · -- both border radii are zero: nothing is shifted
+      have hz' : br1 = 0 ∧ br2 = 0 := by
+        simp only [neq, Bool.and_eq_true, decide_eq_true_eq] at hz
+        exact ⟨le_antisymm hz.1.1 hz.1.2, le_antisymm hz.2.1 hz.2.2⟩
+      intro c hc
+      obtain ⟨g1, g2, g3⟩ := hraw c hc
+      refine ⟨g1, ⟨c.p1, g2, ?_⟩, ⟨c.p2, g3, ?_⟩⟩
+      · rw [hz'.1]; simp [V3.normSq, V3.dot, V3.sub]
+      · rw [hz'.2]; simp [V3.normSq, V3.dot, V3.sub]
+    · intro c hc
+      simp only [List.mem_map] at hc
+      obtain ⟨raw, hraw', rfl⟩ := hc
+      obtain ⟨g1, g2, g3⟩ := hraw raw hraw'
+      exact applyBorder3_good sq pos12 hq dir br1 br2 hn S1 S2 raw g1 g2 g3
+
 /-! ## the sub-detector bookkeeping of `contact_manifolds_composite_shape_composite_shape`
 
 Same statements as for `contact_manifolds_composite_shape_shape` (Theorems.lean), over an arbitrary key type `κ`
